@@ -17,6 +17,18 @@ def latest : List Wire → List Wire
   | [] => []
   | w :: rest => if rest.any (fun w' => ukey w'.msg = ukey w.msg) then latest rest else w :: latest rest
 
+/-- the most recent record with record key `k` -/
+def lastWith (k : Bytes) (h : List Wire) : Option Wire := h.reverse.find? (fun w => ukey w.msg = k)
+
+/-- the catch-up deliveries `d` are exactly the messages whose most recent record for their (type, key) is not an
+acknowledgement, with that most recent payload, each once:
+(1) every delivered message is the latest record of its key and that record is not an ack,
+(2) every key whose latest record is not an ack is delivered, (3) no key is delivered twice -/
+def catchUpOk (hist : List Wire) (d : List Msg) : Bool :=
+  d.all (fun m => match lastWith (ukey m) hist with | some w => w.msg = m && !w.ack | none => false) &&
+  hist.all (fun w => match lastWith (ukey w.msg) hist with | some w' => w'.ack || d.contains w'.msg | none => true) &&
+  (d.map ukey).Nodup
+
 def countMsg (m : Msg) (l : List Msg) : Nat := l.count m
 
 /-- multiset equality of deliveries -/
@@ -31,11 +43,10 @@ def specStep (g : Ghost) (e : Ev) (d : List Msg) : Except String Ghost :=
     else if w.ack then (if d.isEmpty then .ok g' else .error "ack-delivered")
     else if d = [w.msg] then .ok g' else .error "new-message-not-delivered-exactly-once"
   | .eof p =>
-    let seen := if g.seen.contains p then g.seen else p :: g.seen
+    let seen := addEof g.seen p
     if g.caughtUp then (if d.isEmpty then .ok { g with seen := seen } else .error "redelivered-after-catch-up")
     else if seen.length ≥ g.partitionCount then
-      let want := ((latest g.hist).filter (fun w => !w.ack)).map (·.msg)
-      if sameMultiset d want then .ok { g with seen := seen, caughtUp := true } else .error "catch-up-deliveries"
+      if catchUpOk g.hist d then .ok { g with seen := seen, caughtUp := true } else .error "catch-up-deliveries"
     else if d.isEmpty then .ok { g with seen := seen } else .error "delivered-before-caught-up"
   | .kerr => if d.isEmpty then .ok g else .error "delivered-on-error"
 
